@@ -108,7 +108,8 @@ def run_programs(name, progs, scope, known, *, opts=None, kf_crosstalk="KF-K7-cr
             if not fid:
                 # findings recorded by their witnesses only: exactly the listed (program, output) pairs
                 for kid, ent in known.items():
-                    if isinstance(ent, dict) and ent.get("match") == "witness" and f"{pid}:{o['name']}" in (ent.get("witnesses") or []):
+                    if isinstance(ent, dict) and ent.get("match") == "witness" and (
+                            f"{pid}:{o['name']}" in (ent.get("witnesses") or []) or f"{pid}:*" in (ent.get("witnesses") or [])):
                         fid = kid
                         break
             if fid and fid in known:
